@@ -528,7 +528,7 @@ fn nest(open: &[u8], close: &[u8], n: usize, close_it: bool) -> Vec<u8> {
 pub fn template(r: &mut Rng) -> Case {
     let n = *r.pick(&[10usize, 100, 1000, 10_000, 100_000]);
     let closed = r.bool();
-    let which = r.below(16);
+    let which = r.below(17);
     let mk = |entry: usize, bytes: Vec<u8>, origin: String| Case { entry, bytes, aux: vec![], text: vec![], origin };
     match which {
         0 | 1 | 2 => {
@@ -705,6 +705,35 @@ pub fn template(r: &mut Rng) -> Case {
                 "",
             );
             mk(if r.bool() { 0 } else { 1 }, b, "template:page-tree".into())
+        }
+        15 => {
+            // chains of objects that are bare references, reached from a stream's Length (followed while loading) and
+            // from the catalog: straight chains of any length, loops through the first link, loops entered after a
+            // tail (rho shape), dangling ends
+            let tail = *r.pick(&[0usize, 1, 2, 3, 30, 200]);
+            let cycle = *r.pick(&[0usize, 1, 2, 3, 17]);
+            let first = 5u32;
+            let mut objs: Vec<(u32, Vec<u8>)> = vec![
+                (1, format!("<</Type/Catalog/Pages {} 0 R/Alias {} 0 R>>", first, first).into_bytes()),
+                (2, format!("<</Length {} 0 R>>stream\nabcdef\nendstream", first).into_bytes()),
+            ];
+            let total = tail + cycle;
+            for i in 0..total {
+                let me = first + i as u32;
+                let next = if i + 1 < total { me + 1 } else if cycle > 0 { first + tail as u32 } else { 9999 };
+                objs.push((me, format!("{} 0 R", next).into_bytes()));
+            }
+            if total == 0 || (cycle == 0 && r.bool()) {
+                // the chain ends in a value instead of nowhere
+                let end = first + total as u32;
+                if let Some(last) = objs.last_mut() {
+                    if total > 0 {
+                        last.1 = format!("{} 0 R", end).into_bytes();
+                    }
+                }
+                objs.push((end, if r.bool() { b"6".to_vec() } else { b"<</Type/Pages/Kids[]/Count 0>>".to_vec() }));
+            }
+            mk(if r.bool() { 0 } else { 1 }, wrap_pdf(&objs, ""), format!("template:reference-chain/tail{}/cycle{}", tail, cycle))
         }
         _ => {
             // LZW / Flate garbage of size n
